@@ -405,10 +405,10 @@ crate::harnesses! {
     c02_sub_row_8_9_hi[8] => arith_pairs(8, 1, 9, 6, 10);
     c02_sub_row_8_10_lo[8] => arith_pairs(8, 1, 10, 0, 5);
     c02_sub_row_8_10_hi[8] => arith_pairs(8, 1, 10, 6, 10);
-    c02_mul_8_s15[4] => mul(8, 15);
+    @stretch c02_mul_8_s15[4] => mul(8, 15);
     c02_add_8[4] => add(8, 255);
-    c02_mul_8[4] => mul(8, 255);
-    c02_add_16_s15[4] => add(16, 15);
+    @stretch c02_mul_8[4] => mul(8, 255);
+    @stretch c02_add_16_s15[4] => add(16, 15);
     @quick c02_unary_8[4] => unary(8, 255);
     c02_unary_64_s16[4] => unary(64, 16);
     @quick c02_zext_8_16[4] => zext(8, 16, 255);
